@@ -1587,11 +1587,16 @@ impl Vm {
     }
 
     fn reset_stack(&mut self) {
-        if let Some(fiber) = self.fiber.as_ref() {
+        // The run is abandoned as a whole: the fibers waiting for the active one to yield or
+        // finish will never be resumed either, so their variables are given up (and the
+        // closures that captured them closed over) in the same way.
+        let mut next = self.fiber.as_ref().map(|fiber| fiber.as_gc());
+        while let Some(fiber) = next {
             let mut borrowed_fiber = fiber.borrow_mut();
             borrowed_fiber.close_upvalues(0);
             borrowed_fiber.stack.clear();
             borrowed_fiber.frames.clear();
+            next = borrowed_fiber.caller;
         }
     }
 
